@@ -37,7 +37,14 @@ func (w *Worker) urlToValue(u *url.URL) StructV {
 	sv := zero(t).(StructV)
 	set := func(n string, v Value) { sv.F[fieldIndex(st, n)] = v }
 	if u.User != nil {
-		panic(engineErr("URL with userinfo is not modelled"))
+		ut := w.namedType("net/url", "Userinfo")
+		ust := ut.Underlying().(*types.Struct)
+		uv := zero(ut).(StructV)
+		pw, has := u.User.Password()
+		uv.F[fieldIndex(ust, "username")] = litStr(u.User.Username())
+		uv.F[fieldIndex(ust, "password")] = litStr(pw)
+		uv.F[fieldIndex(ust, "passwordSet")] = mkBool(has)
+		w.pendingUser = &uv
 	}
 	set("Scheme", litStr(u.Scheme))
 	set("Opaque", litStr(u.Opaque))
@@ -50,6 +57,18 @@ func (w *Worker) urlToValue(u *url.URL) StructV {
 	set("Fragment", litStr(u.Fragment))
 	set("RawFragment", litStr(u.RawFragment))
 	return sv
+}
+
+// urlAlloc allocates a converted URL (and its Userinfo, if any) on the heap of s.
+func (w *Worker) urlAlloc(s *State, u *url.URL) PtrV {
+	w.pendingUser = nil
+	sv := w.urlToValue(u)
+	if w.pendingUser != nil {
+		st := w.namedType("net/url", "URL").Underlying().(*types.Struct)
+		sv.F[fieldIndex(st, "User")] = s.alloc(*w.pendingUser)
+		w.pendingUser = nil
+	}
+	return s.alloc(sv)
 }
 
 // valueToURL converts a fully concrete URL struct value back; ok=false if any field is symbolic.
@@ -76,7 +95,23 @@ func (w *Worker) valueToURL(sv StructV) (*url.URL, bool) {
 	u.OmitHost, u.ForceQuery = bl("OmitHost"), bl("ForceQuery")
 	u.RawQuery, u.Fragment, u.RawFragment = str("RawQuery"), str("Fragment"), str("RawFragment")
 	if p := sv.F[fieldIndex(st, "User")].(PtrV); p.Obj != 0 {
-		ok = false
+		if w.curState == nil {
+			ok = false
+		} else if uv, isS := w.curState.Heap[p.Obj].(StructV); isS {
+			ust := w.namedType("net/url", "Userinfo").Underlying().(*types.Struct)
+			name, n1 := uv.F[fieldIndex(ust, "username")].(StrV)
+			pw, n2 := uv.F[fieldIndex(ust, "password")].(StrV)
+			set, n3 := uv.F[fieldIndex(ust, "passwordSet")].(BoolV)
+			if n1 && n2 && n3 && name.K == SLit && pw.K == SLit && set.IsLit() {
+				if set.T == "true" {
+					u.User = url.UserPassword(name.S, pw.S)
+				} else {
+					u.User = url.User(name.S)
+				}
+			} else {
+				ok = false
+			}
+		}
 	}
 	return u, ok
 }
@@ -146,7 +181,7 @@ func init() {
 			c.setTuple(PtrV{}, c.opaqueErr(litStr(err.Error())))
 			return nil, false
 		}
-		c.setTuple(c.s.alloc(c.w.urlToValue(u)), IfaceV{})
+		c.setTuple(c.w.urlAlloc(c.s, u), IfaceV{})
 		return nil, false
 	}
 	I["net/url.ParseRequestURI"] = func(c *icall) ([]*State, bool) {
@@ -159,7 +194,7 @@ func init() {
 			c.setTuple(PtrV{}, c.opaqueErr(litStr(err.Error())))
 			return nil, false
 		}
-		c.setTuple(c.s.alloc(c.w.urlToValue(u)), IfaceV{})
+		c.setTuple(c.w.urlAlloc(c.s, u), IfaceV{})
 		return nil, false
 	}
 	I["(*net/url.URL).String"] = func(c *icall) ([]*State, bool) {
@@ -222,7 +257,7 @@ func init() {
 		if !aok || !bok {
 			return c.fallbackModel("url_URL_ResolveReference")
 		}
-		c.set(c.s.alloc(c.w.urlToValue(a.ResolveReference(b))))
+		c.set(c.w.urlAlloc(c.s, a.ResolveReference(b)))
 		return nil, false
 	}
 	I["(*net/url.URL).Hostname"] = func(c *icall) ([]*State, bool) {
